@@ -2,6 +2,7 @@ import Gnet.Driver.Ring
 import Gnet.Driver.LinkedList
 import Gnet.Driver.Elastic
 import Gnet.Driver.Arith
+import Gnet.Driver.Registry
 
 def main (args : List String) : IO UInt32 := do
   match args with
@@ -9,4 +10,5 @@ def main (args : List String) : IO UInt32 := do
   | ["linkedlist"] => Gnet.Driver.LLD.main; return 0
   | ["elastic"] => Gnet.Driver.ElasticD.main; return 0
   | ["arith"] => Gnet.Driver.ArithD.main; return 0
+  | ["registry"] => Gnet.Driver.RegD.main; return 0
   | _ => IO.eprintln "usage: gnetmodel <component>"; return 2
